@@ -169,6 +169,37 @@ class Unsupported(Exception):
     pass
 
 
+SKIP_REASONS = {}      # why executions / invocations were left out of ExecutorTrace validation (reported in the evidence)
+
+
+def note_skip(exc):
+    k = str(exc) or "?"
+    SKIP_REASONS[k] = SKIP_REASONS.get(k, 0) + 1
+
+
+def retry_atoms(n, a0):
+    """atoms of a retrying step from attempt a0 on (a0 == 1: nothing recorded yet; a0 >= 2: the operation is found READY, so the
+    attempt runs without a START).  Attempt a fails iff fail == -1 or a <= fail; the strategy allows `max` attempts.
+    Returns (atoms, the error leaves the branch)."""
+    f, m = n["fail"], n.get("max", 1)
+    atoms, a = [], a0
+    while True:
+        fails = f == -1 or a <= f
+        first = a == 1
+        if not fails:
+            atoms.append("step" if first else "sretry")
+            return atoms, False
+        if a < m:
+            atoms.append("sfail" if first else "sretryfail")
+            a += 1
+            continue
+        atoms.append("sfinal" if first else "sretryfinal")
+        if n.get("caught"):
+            return atoms, False
+        atoms.append("fail")            # the error leaves the branch
+        return atoms, True
+
+
 def branch_script(nodes, prefix=None, ext=None):
     """script atoms of a branch body; only plain steps / one trailing callback / one leading wait are supported.
     prefix / ext: path prefix of the body's operations and the scenario's external outcomes (needed for invokes)"""
@@ -181,23 +212,9 @@ def branch_script(nodes, prefix=None, ext=None):
         if k == "step" and not n.get("fail") and n.get("sem") != "AMO":
             atoms.append("step")
         elif k == "step" and n.get("sem") != "AMO" and n.get("fail") and n.get("strategy") != "pkg":
-            # attempt a fails iff fail == -1 or a <= fail; the strategy allows `max` attempts; attempts >= 2 are found READY
-            f, m = n["fail"], n.get("max", 1)
-            a = 1
-            while True:
-                fails = f == -1 or a <= f
-                first = a == 1
-                if not fails:
-                    atoms.append("step" if first else "sretry")
-                    break
-                if a < m:
-                    atoms.append("sfail" if first else "sretryfail")
-                    a += 1
-                    continue
-                atoms.append("sfinal" if first else "sretryfinal")
-                if n.get("caught"):
-                    break
-                atoms.append("fail")            # the error leaves the branch
+            sa, leaves = retry_atoms(n, 1)
+            atoms += sa
+            if leaves:
                 return atoms
         elif k == "wfc" and n.get("polls", 1) == 1 and not n.get("fail_at"):
             atoms.append("step")                # one poll: START, check function, SUCCEED
@@ -251,8 +268,9 @@ def convert_all(execution):
             continue
         try:
             out.append(convert_inv(execution, r if not first else None))
-        except Unsupported:
+        except Unsupported as u:
             skipped += 1
+            note_skip(u)
         first = False
     return out, skipped
 
@@ -315,6 +333,18 @@ def convert_inv(execution, inv_rec):
                     # an at-least-once attempt that was interrupted (crash): it is run again without a START, like a READY attempt
                     keep.append("sretry")
                     continue
+                retrying = n["k"] == "step" and n.get("fail") and n.get("sem") != "AMO" and n.get("strategy") != "pkg"
+                if retrying and (st is None or st == "READY"):
+                    # a retrying step met by a later invocation: not begun yet, or found READY after `att` recorded attempts
+                    # (the retry timer fired while no invocation was running): attempt att + 1 runs without a START
+                    att = getattr(inv, "attempts_at_start", {}).get(path_id(f"{path}/b{bi}/{k}"), 0)
+                    if st == "READY" and att < 1:
+                        raise Unsupported("READY operation without a recorded attempt")
+                    sa, leaves = retry_atoms(n, 1 if st is None else att + 1)
+                    keep += sa
+                    if leaves:
+                        break
+                    continue
                 if st is not None:
                     raise Unsupported(f"operation in state {st} at the start of the invocation")
                 if n["k"] not in ("step", "wait", "cb") or n.get("fail") or n.get("sem") == "AMO":
@@ -322,7 +352,7 @@ def convert_inv(execution, inv_rec):
                 keep.append({"step": "step", "wait": "tsusp", "cb": "susp"}[n["k"]])
                 if n["k"] == "cb":
                     break
-            if not (keep and keep[-1] == "susp"):
+            if not (keep and keep[-1] in ("susp", "fail")):
                 keep.append("fail" if bi in braise else "ok")
             scripts[bi] = keep
     # (a crashed or hung invocation contributes the prefix it produced: every prefix of a behaviour is checked like a full one)
